@@ -35,11 +35,13 @@ class Real:
     def __init__(self, path: Path):
         self.path = path
         self.h = {}
+        self.n = 0          # the public spellings of one operation (open()/`with f:`, get()/f[k], …) are used in turn
 
     def apply(self, op):
         from molli.storage.ukvfile import UKVFile
 
         kind = op[0]
+        self.n += 1
         try:
             if kind == "new":
                 _, i, m, h1, h2, b0 = op
@@ -51,16 +53,27 @@ class Real:
                 return "err:no-handle"
             f = self.h[i]
             if kind == "reopen":
-                f.open(op[2])
+                if op[2] is None and self.n % 3 == 0:
+                    f.__enter__()                      # `with f:` on an existing handle object
+                elif op[2] is None and self.n % 3 == 1:
+                    f.open()
+                else:
+                    f.open(op[2])
                 return "ok"
             if kind == "close":
-                f.close()
+                if self.n % 2:
+                    f.close()
+                else:
+                    f.__exit__(None, None, None)
                 return "ok"
             if kind == "put":
-                f.put(op[2], op[3])
+                if self.n % 2:
+                    f.put(op[2], op[3])
+                else:
+                    f[op[2]] = op[3]
                 return "ok"
             if kind == "get":
-                return "val:" + hx(f.get(op[2]))
+                return "val:" + hx(f.get(op[2]) if self.n % 2 else f[op[2]])
             if kind == "keys":
                 return keys_token(list(f.keys()))
         except Exception as e:
@@ -174,6 +187,7 @@ def run_sequence(ctx, path: Path, ops, h_params, check_oracle=True):
                 continue
             before_file = path.read_bytes() if path.exists() else None
             before_keys = {i: sorted(f.keys()) for i, f in real.h.items()}
+            state_before = tr.state.get(op[1]) if len(op) > 1 else None
             out = real.apply(op)
             tr.note(op, out)
             toks.append(out)
@@ -195,6 +209,12 @@ def run_sequence(ctx, path: Path, ops, h_params, check_oracle=True):
                 if op[2] in ref:
                     viol = ("C02:duplicate-put-succeeds", f"second put of key {hx(op[2])[:20]} succeeded")
                 ref[op[2]] = op[3]
+            if k in ("new", "reopen") and out == "ok" and op[1] in real.h and real.h[op[1]].closed:
+                viol = ("C02:handle-closed-after-open", f"`{op_short(op)}` succeeded but the handle is still closed")
+            elif k == "put" and out.startswith("err:") and state_before == "w" and op[2] not in ref and len(op[2]) < 256:
+                viol = ("C02:valid-put-refused", f"`{op_short(op)}` on a handle open for writing, fresh key of {len(op[2])} bytes: {out}")
+            elif k == "get" and out.startswith("err:") and state_before in ("r", "w") and op[2] in ref:
+                viol = ("C02:get-differs-from-put", f"`{op_short(op)}` on an open handle failed with {out} although the key was put")
             if out.startswith("err:other:"):
                 viol = ("C02:unexpected-exception", f"`{op_short(op)}` raised {out[10:]}")
             elif out.startswith("err:") and out != "err:no-handle" and k in ("new", "reopen") and path.exists() and len(path.read_bytes()) >= 32 \
